@@ -313,6 +313,23 @@ func dupScanBefore(f *ssa.Function, w ssa.Instruction, newElem *ssa.Parameter, n
 		}
 		return true, "a complete duplicate scan with an error return on a name match precedes the write"
 	}
+	// the scan may live in a helper of the same receiver (HasType): the write is
+	// reached only when it answered false for the new element's name
+	viaHelper := mustPassEdge(f, w.Block(), func(cond ssa.Value, truth bool) bool {
+		hc, ok := cond.(*ssa.Call)
+		if !ok || truth {
+			return false
+		}
+		sum := existsPredicate(hc.Common().StaticCallee())
+		if sum == nil || sum.elemField == "" {
+			return false
+		}
+		nb, _, ok1 := readsField(hc.Common().Args[sum.nameParam], nameField)
+		return ok1 && (nb == ssa.Value(newElem) || isSpillOf(nb, newElem))
+	})
+	if viaHelper {
+		return true, "a complete duplicate scan in a search helper, answered false, precedes the write"
+	}
 	return false, "no loop comparing existing names with the new name dominates the write"
 }
 
